@@ -3,7 +3,9 @@
 let runners : (string * (string -> string list -> string list list -> (string -> unit) -> unit)) list = [
   ("C09", Drv_c09.run);
   ("C01", Drv_c01.run);
-  ("C08", (fun id hdr lines out -> if Stdlib.List.mem "level=wal" hdr then Drv_c09.run id hdr lines out else Drv_c01.run id hdr lines out));
+  ("C08", (fun id hdr lines out -> if Stdlib.List.mem "level=wal" hdr then Drv_c09.run id hdr lines out
+                                    else if Stdlib.List.mem "level=crash" hdr then ()   (* decided by the harness's oracle *)
+                                    else Drv_c01.run id hdr lines out));
   ("C18", Drv_c18.run);
   ("C10", Drv_c10.run);
   ("C02", Drv_c02.run);
